@@ -749,6 +749,8 @@ def C20(run):
                                    'fixed_writes_are_source, guarded_writes_are_source, rational_writes_are_source, elsewhere_is_reset (lean/Props/C20Prog.lean)',
                                    'the class-attribute assignments of initialize() in droop/values/*.py, extracted with their path conditions, are no longer '
                                    'the lists lean/Props/C20Prog.lean ties to the model')
+        from props import begin_gate
+        broken = broken + begin_gate(run)
     rng = rng_for(run)
     n = budget(run, 1500, 30000)
     items = []
